@@ -1,6 +1,7 @@
-(* Property C18 as boolean monitors over what the Go harnesses observe, the
-   comparison of the model's prediction with the observation (acceptance), and
-   the trigger predicates of the known findings B1, B2, B3.  No proofs here. *)
+(* Property C18 as boolean monitors over what the Go harnesses observe, and the
+   comparison of the model's prediction with the observation (acceptance).
+   The findings B1, B2, B3 are fixed in /repo; there is no trigger predicate
+   left.  No proofs here. *)
 From Coq Require Import ZArith NArith List Bool.
 From Flocq Require Import IEEE754.BinarySingleNaN.
 From GV Require Import Prober.F64 Prober.Model Prober.Sha256.
@@ -34,6 +35,7 @@ Definition lres_eqb (a b : lres) : bool :=
   | LNotFound, LNotFound => true
   | LNoEntry, LNoEntry => true
   | LParse x, LParse y => perr_eqb x y
+  | LDurRange, LDurRange => true
   | _, _ => false
   end.
 
@@ -45,18 +47,12 @@ Definition uris_eqb (a b : uris) : bool :=
   && bytes_eqb (u_database_name a) (u_database_name b).
 
 (* ---------------------------------------------------------------- backoff *)
-Definition two53 : Z := 9007199254740992.
-
-(* guard of the theorems backoff_bounds / backoff_monotone *)
-Definition backoff_guard (base mx : Z) : bool :=
-  (0 <=? base) && (base <=? mx) && (mx <=? two53).
-
-(* trigger of known finding B1: exactly the complement of the guard *)
-Definition k_B1 (base mx : Z) : bool := negb (backoff_guard base mx).
+(* the arguments are Go int64 values *)
+Definition backoff_guard (base mx : Z) : bool := in_int64 base && in_int64 mx && (base <=? mx).
 
 (* o1 = backoff(base, max, retries), o2 = backoff(base, max, retries+1) as
    returned by the implementation (None: the call panicked).  The property
-   speaks about base <= max; it is NOT restricted to the theorem's guard. *)
+   speaks about base <= max. *)
 Definition c18_backoff (base mx retries : Z) (o1 o2 : option Z) : bool :=
   match o1, o2 with
   | Some a, Some b =>
@@ -110,17 +106,6 @@ Definition c18_latency (h t : md) (o : lobs) : bool :=
   | OLres _ | OLother => match latency_spec h t with None => true | Some _ => false end
   end.
 
-(* trigger of known finding B2: |ms| > MaxInt64 / 10^6 *)
-Definition k_B2 (h t : md) : bool :=
-  match first_gfe (timing_values h t) with
-  | Some txt =>
-      match parse_int10 txt with
-      | POk ms => negb (in_int64 (ms * millisecond))
-      | PErr _ => false
-      end
-  | None => false
-  end.
-
 Definition acc_latency (h t : md) (o : lobs) : bool :=
   match o with OLres r => lres_eqb r (parse_latency h t) | _ => false end.
 
@@ -129,16 +114,10 @@ Definition acc_latency (h t : md) (o : lobs) : bool :=
 Definition qps_min_bits : Z := 4457945039842050049.
 Definition qps_min : f64 := f64_of_bits qps_min_bits.
 
-(* guard of the theorem interval_positive (on top of "accepted") *)
+(* the exact domain on which probeInterval is positive and below 2^63:
+   guard of the theorem interval_range_tight; validateFlags' minQPS = 1e-9 is
+   well inside it *)
 Definition interval_guard (qps : f64) : bool := f64_le qps_min qps && f64_le qps f64_1000.
-
-Definition f64_is_nan (x : f64) : bool :=
-  match x with BinarySingleNaN.B754_nan => true | _ => false end.
-
-(* trigger of known finding B3: a qps that the unchanged validateFlags lets
-   through although the interval is not positive: NaN, or 0 < qps < qps_min *)
-Definition k_B3 (qps : f64) : bool :=
-  f64_is_nan qps || (f64_lt f64_zero qps && f64_lt qps qps_min).
 
 (* ---------------------------------------------------------------- URIs *)
 Definition uris_split_ok (p i d c : bytes) (u : uris) : bool :=
@@ -322,25 +301,12 @@ Definition case_mon_idx (k : pcase) : Z :=
   | _ => -1
   end.
 
-Definition case_kB1 (k : pcase) : bool :=
-  match k with KBackoff base mx _ _ _ => k_B1 base mx | _ => false end.
-Definition case_kB2 (k : pcase) : bool :=
-  match k with KLatency h t _ => k_B2 h t | _ => false end.
-Definition case_kB3 (k : pcase) : bool :=
-  match k with
-  | KFlags f _ _ _ => k_B3 (fl_qps f)
-  | _ => false
-  end.
-
 (* everything the driver prints for a case, for the in-Coq cross-check *)
-Definition case_verdict (k : pcase) : bool * bool * (bool * bool * bool) :=
-  (match case_acc k with None => true | Some _ => false end, case_mon k,
-   (case_kB1 k, case_kB2 k, case_kB3 k)).
+Definition case_verdict (k : pcase) : bool * bool :=
+  (match case_acc k with None => true | Some _ => false end, case_mon k).
 
-Definition verdict_eqb (a b : bool * bool * (bool * bool * bool)) : bool :=
-  let '(a1, a2, (a3, a4, a5)) := a in
-  let '(b1, b2, (b3, b4, b5)) := b in
-  Bool.eqb a1 b1 && Bool.eqb a2 b2 && Bool.eqb a3 b3 && Bool.eqb a4 b4 && Bool.eqb a5 b5.
+Definition verdict_eqb (a b : bool * bool) : bool :=
+  Bool.eqb (fst a) (fst b) && Bool.eqb (snd a) (snd b).
 
 (* constructor used by the driver and by the generated Cases.v *)
 Definition mk_flags (p op i d c : bytes) (qps_bits nrows psize : Z) (pt : bytes) : flags :=
